@@ -285,6 +285,8 @@ pub struct World {
     pub ptrace: Vec<String>,
     pub emitted_items: Vec<Items>,
     pub ptrace_on: bool,
+    /// a reload to try on this replica right after the current commit (set when a fresh open differed)
+    pub follow_reload: Option<usize>,
 }
 
 static OP_START: AtomicU64 = AtomicU64::new(0);
@@ -355,6 +357,7 @@ impl World {
             ptrace: vec![],
             emitted_items: vec![Items::new(); n],
             ptrace_on: backend == "sim",
+            follow_reload: None,
         };
         let acap: u64 = std::env::var("MELDA_ARRAYDESCRIPTORS_CACHE_CAP").ok().and_then(|x| x.parse().ok()).unwrap_or(16);
         w.ptrace.push(js(&json!({"p": "init", "n": n, "acap": acap})));
@@ -885,6 +888,11 @@ impl World {
                     Some("refresh") => self.op_refresh(r),
                     _ => {}
                 }
+                if let Some(rr) = self.follow_reload.take() {
+                    if op.get("then").is_none() && !self.reps[rr].m.as_ref().map(|m| any_staged(m)).unwrap_or(true) {
+                        self.op_reload(rr);
+                    }
+                }
             }
             "meld" => self.op_meld(r, op["from"].as_u64().unwrap() as usize % self.reps.len()),
             "refresh" => self.op_refresh(r),
@@ -1150,6 +1158,10 @@ impl World {
                         if held.is_empty() {
                             if f_after != mine {
                                 fails.push(("C03", format!("a replica reopened after commit differs from the committing replica: {}", first_diff(&mine, &f_after))));
+                                // the committing replica has applied everything its storage holds: a reload of THIS
+                                // replica must not change what it shows either (C12) - tried right away, while the
+                                // difference is there
+                                self.follow_reload = Some(r);
                             }
                         } else {
                             let mut it = items_after.clone();
